@@ -38,6 +38,15 @@ def setup():
     _ready = True
 
 
+def set_tz(name="UTC"):
+    """The process's time zone (the library converts stored seconds to naive local datetimes and back).
+    Checks run under UTC; some container configurations run under a fixed-offset zone given as a POSIX
+    TZ string (no zone database needed), so that a conversion that is only right under UTC shows."""
+    if os.environ.get("TZ") != name:
+        os.environ["TZ"] = name
+        time.tzset()
+
+
 def _limit_memory(gib=4):
     """Decoding garbage that a defective write path produced can ask for tens of gigabytes (array extents
     read from the wrong place); with an address-space limit that is a prompt MemoryError instead of
